@@ -28,7 +28,7 @@ func (c *nxCluster) persistedEntry(h *nxHost, idx uint64) (pb.Entry, bool) {
 // checkSend is called for every message leaving a replica, at the moment the
 // real node hands it to the transport.
 func (c *nxCluster) checkSend(h *nxHost, m pb.Message) {
-	st := h.db.State(nxShard, h.id)
+	st := nxState(h)
 	ss, _ := h.db.GetSnapshot(nxShard, h.id)
 	if m.Term > h.maxTermSent && m.Type != pb.RequestPreVote && m.Type != pb.RequestPreVoteResp {
 		h.maxTermSent = m.Term
@@ -56,7 +56,7 @@ func (c *nxCluster) checkSend(h *nxHost, m pb.Message) {
 		if !m.Reject && m.LogIndex > ss.Index {
 			if _, ok := c.persistedEntry(h, m.LogIndex); !ok {
 				c.fail("C04: replica %d acknowledges log index %d which is not durable (durable max index %d)",
-					h.id, m.LogIndex, h.db.MaxIndex(nxShard, h.id))
+					h.id, m.LogIndex, nxMaxIndex(h))
 			}
 		}
 	case pb.HeartbeatResp, pb.ReadIndexResp, pb.Heartbeat, pb.Replicate, pb.InstallSnapshot, pb.TimeoutNow:
@@ -231,7 +231,7 @@ func (c *nxCluster) check() string {
 			c.leaderOf[t] = h.id
 		}
 		// C04: after a restart the durable term is never lower than a term this replica sent
-		st := h.db.State(nxShard, h.id)
+		st := nxState(h)
 		if st.Term < h.maxTermSent {
 			c.fail("C04: replica %d durable term %d is lower than term %d it already used in a message", h.id, st.Term, h.maxTermSent)
 		}
@@ -327,9 +327,9 @@ func (c *nxCluster) Canon() []byte {
 			b.Bool(h.pipe.step).Bool(h.pipe.apply).Bool(h.pipe.commit).Bool(h.pipe.save).Bool(h.pipe.recover).Bool(c.lazy[h.id])
 			b.U(h.maxTermSent)
 		}
-		st := h.db.State(nxShard, h.id)
+		st := nxState(h)
 		ss, _ := h.db.GetSnapshot(nxShard, h.id)
-		mi := h.db.MaxIndex(nxShard, h.id)
+		mi := nxMaxIndex(h)
 		b.Sep('d').U(st.Term, st.Vote, st.Commit, mi, ss.Index)
 		for i := ss.Index + 1; i <= mi; i++ {
 			e, ok := c.persistedEntry(h, i)
